@@ -207,4 +207,25 @@ theorem unchecked_put_registers_twice :
     (idsOf (kmRun false ⟨KM.new, [.start [5, 5]]⟩ [0, 0, 0, 0]).g 5).length = 2 ∧
     (idsOf (kmRun true ⟨KM.new, [.start [5], .start [5, 5]]⟩ [0, 1, 0, 1, 0, 1, 1]).g 5).length = 1 := by decide
 
+/-- **assert_kinds_repeatable** (LIVE definition, `ids[i] = Put(kinds[i])`): whatever the mapper's history, the ids
+`AssertKinds(ks)` returns are the table's ids of `ks` IN THE ORDER OF `ks`, and calling it again — now that every kind is
+registered — changes nothing and returns the very same list. So the kind-id array of a CREATE is byte-identical on the
+registering call and on every later call. -/
+theorem assert_kinds_repeatable (g : KM) (ks : List Nat) :
+    (g.assertKinds ks).2 = ks.map (g.assertKinds ks).1.idOf
+    ∧ ((g.assertKinds ks).1.assertKinds ks).1 = (g.assertKinds ks).1
+    ∧ ((g.assertKinds ks).1.assertKinds ks).2 = (g.assertKinds ks).2 := by
+  have hnoop := assertKinds_noop ks (g.assertKinds ks).1 (assertKinds_all_present ks g)
+  refine ⟨assertKinds_ids ks g, hnoop, ?_⟩
+  rw [assertKinds_ids ks (g.assertKinds ks).1, hnoop, assertKinds_ids ks g]
+
+/-- **assert_kinds_old_order_depends_on_state** (OLD definition: found ids first, newly registered ids after): with kind
+7 registered and kind 9 not, `AssertKinds([9, 7])` returns `[id 7, id 9]` on the registering call and `[id 9, id 7]` on
+the next one — `CREATE (n:Fresh:User)` emitted `array [1, 51]` first and `array [51, 1]` afterwards. -/
+theorem assert_kinds_old_order_depends_on_state :
+    (KM.assertKinds_old ⟨[(7, 1)], 2⟩ [9, 7]).2 = [1, 2]
+    ∧ ((KM.assertKinds_old ⟨[(7, 1)], 2⟩ [9, 7]).1.assertKinds_old [9, 7]).2 = [2, 1]
+    ∧ (KM.assertKinds ⟨[(7, 1)], 2⟩ [9, 7]).2 = [2, 1]
+    ∧ ((KM.assertKinds ⟨[(7, 1)], 2⟩ [9, 7]).1.assertKinds [9, 7]).2 = [2, 1] := by decide
+
 end Dawgs.C05.Props
